@@ -137,6 +137,18 @@ type ATStmt struct {
 	Rows  [][]*ATExpr
 	// classes of known findings this statement falls in (class predicates)
 	Classes []string
+	// ForceFail: the database is made to fail the business statement (injected error)
+	ForceFail bool
+}
+
+// Arm injects the failure of a ForceFail statement; the returned func disarms it.
+func (s *ATStmt) Arm(e *memdb.Engine, table string) func() {
+	if !s.ForceFail {
+		return func() {}
+	}
+	kind := map[byte]string{'U': "update", 'D': "delete", 'X': "insert"}[s.Kind]
+	e.AddFault(memdb.Fault{Kind: kind, Table: table, Nth: 1})
+	return e.ClearFaults
 }
 
 type sqlOut struct {
@@ -269,6 +281,11 @@ func (s *ATStmt) Render(sc *ATSchema) (string, []interface{}, string) {
 		}
 	}
 	fmt.Fprintf(&o.tok, "G%d:", len(o.args))
+	if s.ForceFail {
+		t := o.tok.String()
+		o.tok.Reset()
+		o.tok.WriteString("!" + t)
+	}
 	goArgs := make([]interface{}, len(o.args))
 	for i, a := range o.args {
 		o.tok.WriteString(a.Tok())
@@ -311,6 +328,9 @@ func genSchema(r *Rng, table string, o ATGenOpts) *ATSchema {
 		}
 	}
 	sc.Cols[0].Name = "id"
+	if o.StrPK && r.Chance(40) {
+		sc.Cols[0].Typ = 's' // a character key
+	}
 	sc.PK = []int{0}
 	sc.Collide = o.CollideKeys
 	if n >= 3 && (r.Chance(30) || o.CollideKeys) {
@@ -323,7 +343,7 @@ func genSchema(r *Rng, table string, o ATGenOpts) *ATSchema {
 	return sc
 }
 
-var atStrings = []string{"a", "b", "ab", "x y", "it's", "", "zz", "K-9"}
+var atStrings = []string{"a", "b", "ab", "x y", "it's", "", "zz", "K-9", "k:"}
 
 func genVal(r *Rng, c ATCol) ATVal {
 	if c.Nullable && r.Chance(20) {
@@ -371,6 +391,9 @@ func genRows(r *Rng, sc *ATSchema, n int) [][]ATVal {
 				if sc.Cols[p].Typ == 's' {
 					row[p] = ATVal{K: 's', S: "k"}
 				}
+			}
+			if row[p].K == 's' && row[p].S == "" {
+				row[p].S = "e" // an empty key would be indistinguishable from "no key" in the lock-key text
 			}
 			k += row[p].Cell() + "/"
 		}
@@ -586,6 +609,9 @@ func genInsert(r *Rng, sc *ATSchema, taken map[string]bool, o ATGenOpts) *ATStmt
 				}
 				if sc.isPK(k) && row[k].K == 'N' {
 					row[k] = ATVal{K: 'i', I: int64(12 + r.Intn(40))}
+				}
+				if sc.isPK(k) && c.Typ == 's' && (row[k].K != 's' || row[k].S == "" || r.Chance(60)) {
+					row[k] = ATVal{K: 's', S: fmt.Sprintf("n%d", 12+r.Intn(40))}
 				}
 			}
 			k := ""
